@@ -77,6 +77,9 @@ fn parse_opts(s: &str) -> Opts {
             _ => { eprintln!("xt: unknown option {k}"); std::process::exit(3); }
         }
     }
+    if (o.world || o.worldself) && o.worldm.is_empty() {
+        o.worldm = ["exists", "is_dir", "is_file", "is_symlink", "symlink_metadata", "metadata", "file_type", "try_exists"].iter().map(|x| x.to_string()).collect();
+    }
     o
 }
 
@@ -148,6 +151,10 @@ struct Rw {
     errors: Vec<String>,
     removed_prints: usize,
     nested_fns: Vec<String>,
+    closure_params: Vec<String>,
+    closure_label: Option<String>,
+    closure_counts: BTreeMap<String, usize>,
+    closure_names: Vec<String>,
 }
 impl Rw {
     fn bump(&mut self, r: &'static str) { *self.counts.entry(r).or_insert(0) += 1; }
@@ -348,6 +355,11 @@ impl VisitMut for Rw {
             }
             Expr::Closure(c) => {
                 let n = self.closure_no; self.closure_no += 1;
+                // closures are addressed by the method they are passed to: `closure map_err 0`, else `closure anon K`
+                let label = self.closure_label.take().unwrap_or_else(|| "anon".to_string());
+                let kk = { let e = self.closure_counts.entry(label.clone()).or_insert(0); let k = *e; *e += 1; k };
+                let cname = format!("{}_{}", label, kk);
+                self.closure_names.push(cname.clone());
                 // R18
                 let mut k: usize = 0;
                 for p in c.inputs.iter_mut() {
@@ -358,19 +370,35 @@ impl VisitMut for Rw {
                         self.bump("R18");
                     }
                 }
+                let mark = self.closure_params.len();
+                for p in c.inputs.iter() {
+                    let pat = match p { syn::Pat::Type(pt) => &*pt.pat, other => other };
+                    if let syn::Pat::Ident(pi) = pat { self.closure_params.push(pi.ident.to_string()); }
+                }
                 self.closure_depth += 1;
                 self.visit_expr_mut(&mut c.body);
                 self.closure_depth -= 1;
+                self.closure_params.truncate(mark);
                 // closure header placeholder: emitted as a call wrapper the driver can replace
-                let hdr = format_ident!("__verif_closure_{}", n);
+                let hdr = format_ident!("__verif_closure_{}", cname);
                 let inner = e.clone();
                 *e = parse_quote!(#hdr!(#inner));
                 return;
             }
             _ => {}
         }
-        // children first
-        visit_mut::visit_expr_mut(self, e);
+        // children first (closure arguments of a method call get that method's name as their label)
+        if let Expr::MethodCall(mc) = e {
+            self.visit_expr_mut(&mut mc.receiver);
+            let mname = mc.method.to_string();
+            for a in mc.args.iter_mut() {
+                if matches!(a, Expr::Closure(_)) { self.closure_label = Some(mname.clone()); }
+                self.visit_expr_mut(a);
+                self.closure_label = None;
+            }
+        } else {
+            visit_mut::visit_expr_mut(self, e);
+        }
         match e {
             Expr::Try(t) if self.o.qmark => {
                 self.bump("R19");
@@ -434,7 +462,15 @@ impl VisitMut for Rw {
             }
             Expr::MethodCall(mc) => {
                 let name = mc.method.to_string();
-                if self.o.worldm.iter().any(|m| *m == name) {
+                // a method of the same name on a closure parameter (e.g. `|metadata| metadata.is_dir()`) is not a path query
+                let recv_is_closure_param = match &*mc.receiver { Expr::Path(p) => p.path.get_ident().map(|i| self.closure_params.contains(&i.to_string())).unwrap_or(false), _ => false };
+                // `X.file_type()?.is_dir()` / `X.metadata()?.is_file()`: the receiver is a FileType/Metadata value, not a path
+                let recv_is_metadata = {
+                    let mut r: &Expr = &mc.receiver;
+                    loop { match r { Expr::Try(t) => r = &t.expr, Expr::Paren(p) => r = &p.expr, Expr::Reference(x) => r = &x.expr, _ => break } }
+                    match r { Expr::MethodCall(m2) => { let n2 = m2.method.to_string(); ["file_type", "metadata", "symlink_metadata", "path_file_type", "path_metadata", "path_symlink_metadata", "permissions"].contains(&n2.as_str()) } _ => false }
+                };
+                if self.o.worldm.iter().any(|m| *m == name) && !recv_is_closure_param && !recv_is_metadata {
                     self.bump("R1");
                     let m = format_ident!("path_{}", name);
                     let recv = &mc.receiver; let args = &mc.args;
@@ -457,8 +493,11 @@ impl VisitMut for Rw {
                             if let Expr::Path(p) = a {
                                 if p.path.segments.len() >= 2 || p.path.segments.last().map(|s| s.ident.to_string().chars().next().unwrap().is_uppercase()).unwrap_or(false) {
                                     let p2 = p.clone();
-                                    let n = self.closure_no; self.closure_no += 1;
-                                    let hdr = format_ident!("__verif_closure_{}", n);
+                                    self.closure_no += 1;
+                                    let kk = { let e = self.closure_counts.entry(name.clone()).or_insert(0); let k = *e; *e += 1; k };
+                                    let cname = format!("{}_{}", name, kk);
+                                    self.closure_names.push(cname.clone());
+                                    let hdr = format_ident!("__verif_closure_{}", cname);
                                     *a = parse_quote!(#hdr!(|__x| #p2(__x)));
                                     bumped += 1;
                                 }
@@ -997,7 +1036,7 @@ impl VisitMut for SelfRepl {
 fn emit_fn(key: &str, file: &str, mut sig: syn::Signature, mut block: syn::Block, vis: syn::Visibility, o: &Opts) {
     let start = sig.fn_token.span.start().line;
     let end = block.brace_token.span.close().end().line;
-    let mut rw = Rw { o: o.clone(), loop_no: 0, closure_no: 0, closure_depth: 0, counts: BTreeMap::new(), errors: vec![], removed_prints: 0, nested_fns: vec![] };
+    let mut rw = Rw { o: o.clone(), loop_no: 0, closure_no: 0, closure_depth: 0, counts: BTreeMap::new(), errors: vec![], removed_prints: 0, nested_fns: vec![], closure_params: vec![], closure_label: None, closure_counts: BTreeMap::new(), closure_names: vec![] };
     if let Some(st) = &o.selfty {
         let ty: Type = syn::parse_str(st).expect("selfty");
         let mut sr = SelfRepl { ty };
@@ -1118,7 +1157,7 @@ fn emit_fn(key: &str, file: &str, mut sig: syn::Signature, mut block: syn::Block
     println!("@@ITEM {key}");
     let rws: Vec<String> = rw.counts.iter().map(|(k, v)| format!("{k}:{v}")).collect();
     println!("@@META file={file} line_start={start} line_end={end} loops={} closures={} rewrites={} nested={}",
-        rw.loop_no, rw.closure_no, rws.join(","), rw.nested_fns.join(","));
+        rw.loop_no, rw.closure_names.join(";"), rws.join(","), rw.nested_fns.join(","));
     for e in &rw.errors { println!("@@UNSUPPORTED {e}"); }
     println!("@@TEXT");
     print!("{text}");
